@@ -36,6 +36,11 @@ type CMsg struct {
 	// Partial: the receiving application reads only this many bytes of the
 	// message and moves on (-1 = reads it to the end).
 	Partial int `json:"partial"`
+	// Hold (pair leg): the receiver opens the message, reads its first half and
+	// finishes it only after the next message - which flows in the opposite
+	// direction - has been sent and read, so that both endpoints of the
+	// process are inside a message at the same time.
+	Hold bool `json:"hold,omitempty"`
 }
 
 // CompCase is one compression negotiation scenario.
@@ -67,6 +72,31 @@ var announcePool = [][]string{
 	{`permessage-deflate; server_no_context_takeover="1"; client_no_context_takeover`},
 }
 
+// genExtLines composes an extension header: 1-4 well-formed elements (at most
+// one of them from pmd, at any position) spread over 1-3 header lines.
+func genExtLines(t *rapid.T, pmd []string) []string {
+	others := []string{"foo", "bar; a=b", `x-ext; note="a, b"`, "x-webkit-deflate-frame", "permessage-deflate2", "baz; k=v; flag"}
+	n := rapid.IntRange(1, 4).Draw(t, "ext_n")
+	at := rapid.IntRange(-1, n-1).Draw(t, "ext_pmd_at") // -1: no permessage-deflate element
+	var lines []string
+	cur := ""
+	for i := 0; i < n; i++ {
+		e := rapid.SampledFrom(others).Draw(t, "ext_other")
+		if i == at {
+			e = rapid.SampledFrom(pmd).Draw(t, "ext_pmd")
+		}
+		if cur != "" && rapid.Bool().Draw(t, "ext_newline") {
+			lines = append(lines, cur)
+			cur = ""
+		}
+		if cur != "" {
+			cur += rapid.SampledFrom([]string{", ", ",", " , "}).Draw(t, "ext_sep")
+		}
+		cur += e
+	}
+	return append(lines, cur)
+}
+
 func genCompCase(t *rapid.T) CompCase {
 	var c CompCase
 	c.Leg = rapid.SampledFrom([]string{"pair", "pair", "server", "client"}).Draw(t, "leg")
@@ -75,8 +105,14 @@ func genCompCase(t *rapid.T) CompCase {
 	switch c.Leg {
 	case "server":
 		c.Offer = rapid.SampledFrom(extOffers).Draw(t, "offer")
+		if rapid.IntRange(0, 2).Draw(t, "composed_offer") == 0 {
+			c.Offer = genExtLines(t, []string{"permessage-deflate", "permessage-deflate; client_max_window_bits", "permessage-deflate; server_no_context_takeover; client_no_context_takeover"})
+		}
 	case "client":
 		c.Announce = rapid.SampledFrom(announcePool).Draw(t, "announce")
+		if rapid.IntRange(0, 2).Draw(t, "composed_announce") == 0 {
+			c.Announce = genExtLines(t, []string{"permessage-deflate; server_no_context_takeover; client_no_context_takeover", "permessage-deflate; client_no_context_takeover; server_no_context_takeover", "permessage-deflate; server_no_context_takeover", "permessage-deflate"})
+		}
 	}
 	n := rapid.IntRange(1, 6).Draw(t, "nmsgs")
 	for i := 0; i < n; i++ {
@@ -99,6 +135,8 @@ func genCompCase(t *rapid.T) CompCase {
 		m.Partial = -1
 		if rapid.IntRange(0, 4).Draw(t, "partial") == 0 {
 			m.Partial = rapid.IntRange(0, 10).Draw(t, "partial_n")
+		} else if c.Leg == "pair" && rapid.IntRange(0, 2).Draw(t, "hold") == 0 {
+			m.Hold = true
 		}
 		c.Msgs = append(c.Msgs, m)
 	}
@@ -203,6 +241,12 @@ func applySettings(conn *websocket.Conn, m CMsg) error {
 // sendAndCheck writes a message on from, judges its wire image, transfers it to
 // to (if not nil) and reads it back.
 func sendAndCheck(i int, m CMsg, from, to *websocket.Conn, trFrom, trTo *xport.ScriptConn, fromServer, negotiated bool, rsv1Seen *int) error {
+	return sendAndCheckHold(i, m, from, to, trFrom, trTo, fromServer, negotiated, rsv1Seen, nil)
+}
+
+// sendAndCheckHold is sendAndCheck; with hold != nil and m.Hold the message is
+// left half-read and *hold is set to the function that finishes it.
+func sendAndCheckHold(i int, m CMsg, from, to *websocket.Conn, trFrom, trTo *xport.ScriptConn, fromServer, negotiated bool, rsv1Seen *int, hold *func() error) error {
 	if err := applySettings(from, m); err != nil {
 		return fmt.Errorf("message %d: setting change failed: %v", i, err)
 	}
@@ -255,6 +299,29 @@ func sendAndCheck(i int, m CMsg, from, to *websocket.Conn, trFrom, trTo *xport.S
 		return nil
 	}
 	trTo.AppendInput(seg)
+	if hold != nil && m.Hold {
+		mt, r, err := to.NextReader()
+		if err != nil {
+			return fmt.Errorf("message %d (RSV1=%v) could not be opened by the peer: %v", i, msgs[0].Compressed, err)
+		}
+		first := make([]byte, len(data)/2)
+		n, _ := io.ReadFull(r, first)
+		if mt != m.MT || !bytes.Equal(first[:n], data[:n]) || n != len(first) {
+			return fmt.Errorf("message %d: the first %d bytes read by the peer differ from what was sent", i, n)
+		}
+		compressed := msgs[0].Compressed
+		*hold = func() error {
+			rest, err := io.ReadAll(r)
+			if err != nil {
+				return fmt.Errorf("message %d (%d bytes, RSV1=%v), left half-read while a message flowed in the other direction, could not be finished: %v", i, len(data), compressed, err)
+			}
+			if got := append(first, rest...); !bytes.Equal(got, data) {
+				return fmt.Errorf("message %d (RSV1=%v), left half-read while a message flowed in the other direction: received %d bytes (differs at %d), sent %d", i, compressed, len(got), firstDiff(got, data), len(data))
+			}
+			return nil
+		}
+		return nil
+	}
 	if m.Partial >= 0 {
 		mt, r, err := to.NextReader()
 		if err != nil {
@@ -323,14 +390,32 @@ func checkC15(c CompCase, o *Obs) error {
 			return fmt.Errorf("101 announces permessage-deflate without both no_context_takeover parameters: %q", resp.Get("Sec-WebSocket-Extensions"))
 		}
 		negotiated := pmd && both
+		var held func() error
 		for i, m := range c.Msgs {
 			var err error
+			var hold *func() error
+			var mine func() error
+			// a message can be held only across a message in the other direction
+			if m.Hold && held == nil && i+1 < len(c.Msgs) && c.Msgs[i+1].FromClient != m.FromClient {
+				hold = &mine
+			}
 			if m.FromClient {
-				err = sendAndCheck(i, m, client, server, trC, trS, false, negotiated, &rsv1)
+				err = sendAndCheckHold(i, m, client, server, trC, trS, false, negotiated, &rsv1, hold)
 			} else {
-				err = sendAndCheck(i, m, server, client, trS, trC, true, negotiated, &rsv1)
+				err = sendAndCheckHold(i, m, server, client, trS, trC, true, negotiated, &rsv1, hold)
+			}
+			if err == nil && held != nil {
+				err = held()
+				held = nil
+				o.Class("pair_reads_overlapped")
 			}
 			if err != nil {
+				return fmt.Errorf("Dialer=%v Upgrader=%v: %w", c.DialerOn, c.UpgraderOn, err)
+			}
+			held = mine
+		}
+		if held != nil {
+			if err := held(); err != nil {
 				return fmt.Errorf("Dialer=%v Upgrader=%v: %w", c.DialerOn, c.UpgraderOn, err)
 			}
 		}
